@@ -118,9 +118,12 @@ def check_scan(case):
     try:
         with warnings.catch_warnings():
             warnings.simplefilter("ignore")
+            # load-median line: ONE strength object answers the whole sweep (the natural use: one component, many load
+            # levels) - whatever the object remembers from earlier calls must not leak into later ones
+            kept = FailureProbability(sm, ss)
             for z in zs:
                 if line == "load-median-varies":
-                    p = FailureProbability(sm, ss).pf_norm_load(10 ** (math.log10(sm) + z * tot), ls)
+                    p = kept.pf_norm_load(10 ** (math.log10(sm) + z * tot), ls)
                 else:
                     p = FailureProbability(10 ** (math.log10(sm) - z * tot), ss).pf_norm_load(sm, ls)
                 nev += 1
@@ -199,12 +202,14 @@ def check_ladder(case):
     viol, nev, out, stats = [], 0, [], {"unresolved_finest": 0, "unresolved_pairs": 0}
     try:
         fp = FailureProbability(sm, ss)
+        buffers = {n: np.empty(n) for n in GRIDS}      # one grid buffer per size, refilled IN PLACE for every load level
         for z0 in Z0S + Z0S_TAIL:
             lm = math.log10(sm) + z0 * tot
             e = _N01.cdf(z0)
             errs, hs = [], []
             for n in GRIDS:
-                x = np.linspace(lm - 8 * ls, lm + 8 * ls, n)
+                x = buffers[n]
+                x[:] = np.linspace(lm - 8 * ls, lm + 8 * ls, n)
                 pdf = np.array([_normal_pdf(v, lm, ls) for v in x])
                 p = float(fp.pf_arbitrary_load(x, pdf))
                 nev += 1
